@@ -17,7 +17,7 @@ def build(u):
     u.include('prelude/slice_find.rs')
     u.emit(F, 'struct Analyzer', pub_fields=True)
     u.include('spec/u_label_spec.rs', kind='spec')
-    R14 = rules.r14_iter_find('Identifier', 'b == (x.name@ == identifier.name@)')
+    R14 = rules.r14_iter_find('Identifier', 'b == (x.name@ == identifier.name@)', written_for='x')
     u.emit(F, 'impl Analyzer', rules=[R14])
     R = [rules.r1_r2_map_collect(min_count=0)]
     u.emit(F, 'trait Analyzable', pre=inject(
